@@ -67,7 +67,7 @@ def make_stream(R):
         if k < 0.6:
             m = gen.rmsg(R, good=0.9, bad_data=0.03, units=(1, 1, 2, 3))
         elif k < 0.7:
-            d = bytes(R.choice(b'\n\r;a,"#') for _ in range(R.choice([0, 1, 3, 6, 10, 16, 25, 40])))
+            d = bytes(R.choice(b'\n\r;a,"#\x00\x00') for _ in range(R.choice([0, 1, 3, 6, 10, 16, 25, 40])))
             m = b'BLK? #' + str(len(str(len(d)))).encode() + str(len(d)).encode() + d + R.choice([b'\n', b'\r\n'])
         elif k < 0.8:
             m = R.choice([b'TXT "a;b"', b"TXT 'x,y'", b'TXT "q""q"', b'TXT "a\nb"', b"TXT 'c\r\nd'"]) + R.choice([b'\n', b'\r\n'])
@@ -77,6 +77,10 @@ def make_stream(R):
             m = gen.mutate(R, gen.rmsg(R))
         msgs.append(m)
     s = b''.join(msgs)
+    if R.random() < 0.25:
+        # the stream ends in an unterminated unit (executed by the final zero-length call), possibly a binary block
+        d = bytes(R.choice(b'ab\x00\x01\n') for _ in range(R.randint(1, 6)))
+        s += R.choice([b'II 5', b'TEST:A?', b'BLK? #' + str(len(str(len(d)))).encode() + str(len(d)).encode() + d, b'TXT "x"', b'CH 1,2'])
     return s[:200]
 
 
